@@ -112,8 +112,12 @@ def do_import(src, sid):
         env = dict(os.environ, PYTHONPATH=scratch, PYTHONDONTWRITEBYTECODE='1')
         p = subprocess.run(TESTCMD, cwd=scratch, env=env, capture_output=True, text=True)
         confirm['tests_pass_with_patch'] = p.returncode == 0
-        if p.returncode != 0:
-            # timing-sensitive tests: one retry
+        for _attempt in range(3):
+            if p.returncode == 0:
+                break
+            # the suite contains wall-clock timing tests that fail on a loaded machine: retry
+            confirm.setdefault('flaky_failures', []).extend(
+                l.split(' - ')[0] for l in p.stdout.splitlines() if l.startswith('FAILED'))
             p = subprocess.run(TESTCMD, cwd=scratch, env=env, capture_output=True, text=True)
             confirm['tests_pass_with_patch'] = p.returncode == 0
             confirm['tests_tail'] = p.stdout.strip().splitlines()[-3:]
